@@ -602,8 +602,11 @@ func runTimeout(r *h.Run, kind string, d time.Duration) {
 // carrier's Write (bounded wire). Then the receiving side fails - the read
 // timeout expires or the peer writes garbage. After that error no call may stay
 // blocked: the Receive returns it, the blocked Send fails, Close returns.
-func runStuckSend(r *h.Run, trigger string, nsend int, delay time.Duration) {
+func runStuckSend(r *h.Run, trigger string, nsend int, delay time.Duration, closeFirst bool) {
 	label := fmt.Sprintf("send blocked on a non-reading peer (%d senders, flush delay %v), then %s", nsend, delay, trigger)
+	if closeFirst {
+		label = fmt.Sprintf("send blocked on a non-reading peer (%d senders, flush delay %v), Close called from another goroutine while they are blocked, then %s", nsend, delay, trigger)
+	}
 	r.Journal("C19 %s", label)
 	var clock int64
 	ae, be := wire.Pair()
@@ -646,6 +649,13 @@ func runStuckSend(r *h.Run, trigger string, nsend int, delay time.Duration) {
 		return
 	}
 	time.Sleep(2 * time.Millisecond) // shaping: let a sender park inside Write
+	// optionally a third goroutine calls Close now: it queues behind the parked
+	// Send (or parks in its own flush); the receive error below must release it too
+	closeDone := make(chan struct{})
+	if closeFirst {
+		go func() { _ = a.Close(); close(closeDone) }()
+		time.Sleep(2 * time.Millisecond) // shaping: let Close reach the send mutex
+	}
 	var rerr error
 	switch trigger {
 	case "read timeout":
@@ -682,6 +692,20 @@ func runStuckSend(r *h.Run, trigger string, nsend int, delay time.Duration) {
 			return
 		}
 	}
+	if closeFirst {
+		select {
+		case <-closeDone:
+		case <-time.After(15 * time.Second):
+			confirmed, stacks := stuck.Confirm(500*time.Millisecond, func() int { return int(ae.WrittenLen()) }, "transport.(*BaseConn)")
+			if confirmed {
+				fail("close-stays-blocked", fmt.Sprintf("after the receive error (%v) the Close that was called while the Sends were blocked has still not returned; parked goroutines, e.g.:\n%s", rerr, stacks[0]))
+			} else {
+				r.Inconclusive(label + ": Close slow, no confirmed stuck state")
+			}
+			_ = be.Close()
+			return
+		}
+	}
 	var e2 error
 	if guard(fail, "a flushed Send after the receive error", func() { e2 = a.Send(mkPacket(3, 1, 30), false) }) && e2 == nil {
 		fail("send-after-error-succeeds", "a flushed Send after a receive error returned nil (the connection must be closed)")
@@ -697,7 +721,7 @@ func runStuckSend(r *h.Run, trigger string, nsend int, delay time.Duration) {
 
 func TestCheck(t *testing.T) {
 	r := h.New("C19", "fault_enumeration")
-	r.Rule("A/B: 1-16 goroutines send numbered, checksummed packets (sizes around 4096) on one connection with PRNG async/sync patterns and flush delays 0-50 ms while a third goroutine calls Close after a PRNG-chosen number of sends returned (or after all); the peer drains until EOF; oracles: every packet intact, per-sender order, no duplicates, every Send that returned nil before Close was called arrived, wire bytes parse into whole sent packets, a pending Receive is unblocked, then flushed sends fail at once, buffered sends fail once the flush delay elapsed, Receive fails, a second Close returns — on the in-memory wire and again on TCP and WebSocket loopback pairs, half of the cases with a receiver read limit just above the largest packet. D: an instrumented carrier fails at every k-th Read / Write / Close / SetReadDeadline call of a scripted send/receive sequence, for flush delays 0 and 5 ms. E: read timeouts 10-30 ms with a silent peer on wire, TCP and WebSocket. F: 1-3 senders blocked in the carrier's Write on a non-reading peer (bounded wire), then a read timeout / garbage / an oversized packet fails the Receive: the blocked Sends must fail, later calls fail at once, Close returns. Everything runs under the race detector. Non-trivial = runs with >= 2 concurrent senders or a close/fault while sends are in progress; distinct by case; distinct arrival interleavings are counted separately")
+	r.Rule("A/B: 1-16 goroutines send numbered, checksummed packets (sizes around 4096) on one connection with PRNG async/sync patterns and flush delays 0-50 ms while a third goroutine calls Close after a PRNG-chosen number of sends returned (or after all); the peer drains until EOF; oracles: every packet intact, per-sender order, no duplicates, every Send that returned nil before Close was called arrived, wire bytes parse into whole sent packets, a pending Receive is unblocked, then flushed sends fail at once, buffered sends fail once the flush delay elapsed, Receive fails, a second Close returns — on the in-memory wire and again on TCP and WebSocket loopback pairs, half of the cases with a receiver read limit just above the largest packet. D: an instrumented carrier fails at every k-th Read / Write / Close / SetReadDeadline call of a scripted send/receive sequence, for flush delays 0 and 5 ms. E: read timeouts 10-30 ms with a silent peer on wire, TCP and WebSocket. F: 1-3 senders blocked in the carrier's Write on a non-reading peer (bounded wire), then a read timeout / garbage / an oversized packet fails the Receive: the blocked Sends must fail, later calls fail at once, Close returns; each case again with a Close called from a third goroutine while the Sends are blocked (that Close must return too). Everything runs under the race detector. Non-trivial = runs with >= 2 concurrent senders or a close/fault while sends are in progress; distinct by case; distinct arrival interleavings are counted separately")
 	r.Assume("in parts A-E peers always drain; part F blocks a Send on a non-reading peer and then makes the receive side fail (a Close called first would wait behind the blocked Send - that is the recorded C13 mechanism and is not exercised here)")
 	rng := r.Rand("c19")
 	mk := func(kind string, i int) sendCase {
@@ -756,7 +780,8 @@ func TestCheck(t *testing.T) {
 	for rep := 0; rep < r.Pick(2, 30); rep++ {
 		for _, trig := range []string{"read timeout", "garbage from the peer", "oversized packet from the peer"} {
 			for _, ns := range []int{1, 3} {
-				runStuckSend(r, trig, ns, []time.Duration{0, 5 * time.Millisecond}[(rep+ns)%2])
+				runStuckSend(r, trig, ns, []time.Duration{0, 5 * time.Millisecond}[(rep+ns)%2], false)
+				runStuckSend(r, trig, ns, []time.Duration{0, 5 * time.Millisecond}[(rep+ns)%2], true)
 				nstuck++
 			}
 		}
